@@ -42,7 +42,8 @@
 // milliseconds since the recorder was created (diagnostics and generous bounds only), plus
 //
 //	ConnWrite{len, dead}  ConnRead{dead}  SetReadDeadline{kind, dur_ms, dead}  SetDeadline{..}
-//	SetWriteDeadline{..}  ConnClose{}     (posted by the code under test)
+//	SetWriteDeadline{..}  ConnClose{}     (posted by the code under test; when such a call is held, its effect
+//	takes place at completion: SetReadDeadlineRet{kind, ok}, ConnCloseRet{ok})
 //	WriteRet{ok}  Deliver{len}  ReadFail{kind}  ReadTimeout{kind}  (caused by the controller;
 //	Close() fails the pending Read: ReadFail{kind:"closed"})
 //	Dial{id}  DialRet{id, ok}  DialCtxDone{id}
@@ -498,6 +499,8 @@ func (op *Op) Complete(err error) bool {
 		c.log("WriteRet", op, "ok", err == nil)
 	case OpRead:
 		c.log("ReadFail", op, "kind", "err")
+	case OpSetReadDeadline, OpSetDeadline, OpSetWriteDeadline:
+		c.log(string(op.Kind)+"Ret", op, "ok", err == nil, "kind", op.DKind)
 	default:
 		c.log(string(op.Kind)+"Ret", op, "ok", err == nil)
 	}
